@@ -33,8 +33,30 @@ REQUIRED_THEOREMS = [
     "sphVectorGradient_components", "cart_operators_are_building_blocks",
     "polarLaplace_remainder_bound", "sphLaplace_conservative_remainder_bound",
     "cart_d2_taylor", "cart_d1_taylor", "d2_fun_taylor", "d1_central_fun_taylor", "polar_laplace_taylor", "sph_laplace_plain_taylor",
+    # all smooth fields, every operator and component (Props/C01Smooth.lean, Props/C01SmoothB.lean; tools/gen_c01_smooth.py)
+    "d1_forward_fun_taylor", "d1_backward_fun_taylor", "d2_fun_bounded", "d1sq_central_fun_taylor",
+    "d1sq_onesided_fun_taylor", "abs_lincomb_le", "d1sq_smooth", "d1sq_onesided_smooth",
+    "polarLaplace_smooth", "polarGradient_smooth", "polarGradient_onesided_smooth", "polarDivergence_smooth",
+    "polarVectorGradient_smooth", "polarTensorDivergence_smooth",
+    "sphLaplace_plain_smooth", "sphLaplace_conservative_smooth", "sphGradient_smooth", "sphGradient_onesided_smooth",
+    "sphDivergence_plain_smooth", "sphDivergence_plain_onesided_smooth", "sphDivergence_conservative_smooth",
+    "sphDivergence_conservative_onesided_smooth", "sphVectorGradient_smooth", "sphVectorGradient_onesided_smooth",
+    "sphTensorDivergence_plain_smooth", "sphTensorDivergence_conservative_smooth",
+    "sphTensorDoubleDivergence_plain_smooth", "sphTensorDoubleDivergence_conservative_smooth",
+    "cylLaplace_smooth", "cylGradient_smooth", "cylGradientSquared_smooth", "cylGradientSquared_onesided_smooth",
+    "cylDivergence_smooth", "cylVectorGradient_smooth", "cylVectorLaplace_smooth", "cylTensorDivergence_smooth",
+    "cartLaplace1_smooth", "cartLaplace2_smooth", "cartLaplace3_smooth", "cartGradient_smooth",
+    "cartGradient_onesided_smooth", "cartGradientSquared_smooth", "cartGradientSquared_onesided_smooth",
+    "cartDivergence2_smooth", "cartDivergence2_onesided_smooth", "cartDivergence3_smooth",
+    "cartDivergence3_onesided_smooth", "cartVectorGradient_smooth", "cartVectorGradient_onesided_smooth",
+    "cartVectorLaplace_smooth", "cartTensorDivergence_smooth", "cartTensorDivergence_onesided_smooth",
+    "polarLaplace_uniform_away_from_axis", "sphLaplace_plain_uniform_away_from_axis",
+    "sphLaplace_conservative_uniform_away_from_axis", "sphDivergence_conservative_uniform_away_from_axis",
+    "cylLaplace_uniform_away_from_axis", "cylVectorLaplace_uniform_away_from_axis",
+    "cylVectorLaplace_r_error_eq", "cylVectorLaplace_first_order_at_axis_smooth",
+    "cylVectorLaplace_first_order_at_axis_sharp",
 ]
-EXTRA_PROP_FILES = ["C01Taylor"]
+EXTRA_PROP_FILES = ["C01Taylor", "C01Smooth", "C01SmoothB"]
 RULE = ("matrix leg: seed-derived grids of the four stencil families (Cartesian 1-3 axes incl. UnitGrid, polar, "
         "spherical, cylindrical; 1-4 cells per axis, anisotropic dyadic spacings, with/without hole) x every registered "
         "operator x every documented option (central/forward/backward, conservative or not, central flag) x route; "
